@@ -30,7 +30,7 @@ LEVEL_NOTE = ('Trusted: Lean kernel, float sqrt/cos/sin/atan2 (model run at Floa
               'non-finite coordinates outside the mask (or a one-sample mask) give NaN instead of 0. Unproven clauses: |Z| <= 1 unnormalised and orthonormality for 20 < n <= 40 only in the thorough tier, for n > 40 not at all '
               '(sampled by the oracle); the float sqrt/ceil row search of zernike_index beyond the sampled range of j.')
 TECHNIQUE = 'Lean 4 proof (omega/induction, Mathlib integrals, decide +kernel exact tables) over translator-regenerated formulas + hand model with differential correspondence'
-GEN = ['ZernikeR', 'Mesh']
+GEN = ['ZernikeR', 'Mesh', 'Util', 'Helper', 'Helper20', 'Hex', 'Extent', 'FieldAccum', 'FieldDispatch', 'FieldIdx', 'FieldMerge']      # every Gen module the model, driver and Props import (transitively, through Model/Geometry and Model/Field)
 OPS = ['C11']
 RULE = ('cases: every Noll index 1..861 (all 41 rows n <= 40) against zernike_index; every valid (n, m) with n <= 40 for the radial '
         'coefficients (exact rational evaluation at dyadic nodes); modes j <= 231 (some to 861) on dyadic (rho, theta) nodes with both '
@@ -455,7 +455,7 @@ def oracle(c, io):
     rho = np.array(io['rho']).reshape(sh); th = np.array(io['theta']).reshape(sh)
     if mask.sum() == 0:
         z = np.array(io.get('z', [0.0])); bad = not np.all(z == 0)
-        return 'empty mask (one-sample mask class): everything is outside the mask, the modes must be zero — got NaN (centroid 0/0)' if bad or not np.all(np.isfinite(rho)) else None
+        return 'empty mask (one-sample mask class): everything is outside the mask, the modes must be zero — got NaN (centroid 0/0)' if bad else None      # rho/theta of an empty aperture carry no requirement
     if mask.sum() == 1 and c['shift'] is None:
         # the farthest masked sample is the origin itself: rho cannot be 1 there; the property still demands zeros outside the mask
         if 'z' in io:
